@@ -118,6 +118,14 @@ func c09Run(c *core.C) {
 	if c.Idx%4 == 1 {
 		c09CustomSymbols(c)
 	}
+	if c.Idx%4 == 3 {
+		// hostile source tokens (a block using a symbol index nothing defines yet, completed by a
+		// later block): the sealed copy used in memory authorizes like its source (shared with C02)
+		ds := gen.NewScenario(r, 2, scenOpts)
+		if dt, err := buildScenarioToken(c.Seed, fmt.Sprintf("c09-dang-%d", c.Idx), ds.Blocks); err == nil {
+			c02Dangling(c, dt, ds.Auth)
+		}
+	}
 	f := newFamily(r, c.Seed, fmt.Sprintf("c09-%d", c.Idx), 4)
 	mk := func() ast.Block {
 		return f.U.Block(r, gen.BlockOpts{MaxFacts: 4, MaxRules: 1, MaxChecks: 2, Rule: gen.RuleOpts{PConst: 0.35, PExpr: 0.3, MaxBody: 2}})
